@@ -957,15 +957,15 @@ class EventBus:
         self._on_idle.clear()
 
         # Always acquire the global lock (it's re-entrant across tasks)
-        async with _get_global_lock():
-            # Process the event
-            try:
+        try:
+            async with _get_global_lock():
+                # Process the event
                 await self.process_event(event, timeout=timeout)
-            finally:
-                # Mark task as done only if we got it from the queue, also when processing was
-                # interrupted (e.g. cancelled), otherwise event_queue.join() would wait forever
-                if from_queue:
-                    self.event_queue.task_done()
+        finally:
+            # Mark task as done only if we got it from the queue, also when processing was interrupted or we were
+            # cancelled while still waiting for the lock, otherwise event_queue.join() would wait forever
+            if from_queue:
+                self.event_queue.task_done()
 
         logger.debug(f'✅ {self}.step({event}) COMPLETE')
         return event
